@@ -14,13 +14,26 @@ META = dict(
           "cut-offs below, at, between and above the distinct node/mutation/migration times with flags/population/"
           "metadata arguments, extend_haplotypes. TreeSequence and TableCollection variants are drawn at random "
           "where both exist. Expected rows are built from the docstrings on the RowModel. A case is distinct by the "
-          "sha1 of its input rows and non-trivial when it has at least one edge."),
+          "sha1 of its input rows and non-trivial when it has at least one edge. "
+          "Every call is additionally drawn over argument forms (interval and site-id containers / dtypes; keyword, "
+          "positional, mixed and omitted-default call styles; numeric types of cut-off times, flags, population, "
+          "max_iter) and over object sources (fresh, indexed, copy(), dump_tables(), file round trip, pickle, an "
+          "object that already went through another in-place operation). Forced shares: exact-boundary intervals "
+          "(next double below/above a site position or edge end, -0.0: 14% of interval lists), cut-offs exactly at / "
+          "one ulp below or above a node, mutation or migration time (first three cut-offs of every input), clipped "
+          "variants whose ends are site positions (70%), metadata schemas on tables (22%; JSON and struct node "
+          "schemas for the new nodes of split_edges/decapitate), reference sequence (20%), one whole ragged column "
+          "empty (15%), unsorted tables for delete_older/delete_sites (every input), one large instance per 60 inputs "
+          "(>= 256 children of one parent, 300-520 sites, ragged columns > 64 KiB with one 40000-byte row, >= 64 "
+          "intervals) plus one as the second case of every run, one extend_haplotypes motif per 8 inputs (a unary chain, "
+          "35% of its nodes samples, present on one side of a breakpoint only)."),
     REQUIRED=["keep_intervals:ts", "keep_intervals:tables", "delete_intervals:ts", "delete_intervals:tables",
               "ltrim:ts", "ltrim:tables", "rtrim:ts", "rtrim:tables", "trim:ts", "trim:tables",
               "delete_sites:ts", "delete_sites:tables", "split_edges:ts", "decapitate:ts", "delete_older:tables",
               "extend_haplotypes:ts", "cover:edges", "cover:migrations", "rows:edges", "rows:migrations",
               "rows:mutations", "extend:genotypes", "extend:simplified-genealogy", "refusals",
-              "keep_intervals:simplify=True"],
+              "keep_intervals:simplify=True", "index-kept-consistent", "reused-object", "unsorted-tables",
+              "table-schemas", "big-instances"],
     ASSUMPTIONS=ASSUME_COMMON + [
         "inputs are valid tree sequences with correct mutation parents (generator invariant)",
         "keep/delete_intervals(simplify=True) is decided as 'equals simplify() of the simplify=False result'; "
